@@ -2,7 +2,7 @@
 #![allow(unused_imports, dead_code)]
 use super::*;
 use crate::verif_support::*;
-use crate::{vassert, vcover};
+use crate::{vassert, vcover, vok};
 use core::cell::{Cell, RefCell};
 
 const E: u64 = EVENT_NUMBER_EPOCH_SIZE;
@@ -146,15 +146,15 @@ fn c12_q_event_epoch_load_roundtrip() {
     let kv = Kv::new();
     let d = any_u64();
     let mut p = Persist::new(&kv);
-    p.store_tlv(EVENT_EPOCH_KEY, d).unwrap();
+    vok!(p.store_tlv(EVENT_EPOCH_KEY, d), "harness-setup-call-succeeds");
     vassert!(!kv.bad.get() && kv.durable() == Some(d), "ROLE:event-epoch-blob-is-a-tlv-unsigned");
     // the same bytes through the real decoder
     let mut buf = [0u8; 12];
     let mut wb = crate::utils::storage::WriteBuf::new(&mut buf);
-    d.to_tlv(&TLVTag::Anonymous, &mut wb).unwrap();
+    vok!(d.to_tlv(&TLVTag::Anonymous, &mut wb), "harness-setup-call-succeeds");
     let len = wb.get_tail();
     let mut ev: EventsInner<16> = EventsInner::new();
-    ev.load(&buf[..len]).unwrap();
+    vok!(ev.load(&buf[..len]), "harness-setup-call-succeeds");
     vassert!(ev.next_event_number == d, "ROLE:event-restart-resumes-at-stored-boundary");
 }
 
